@@ -1,3 +1,6 @@
 -- Root of the `Physt` library: the executable model, the driver, and every property theorem.
 import Physt.DriverND
 import Physt.Theorems.C01
+import Physt.Theorems.C03
+import Physt.Theorems.C04
+import Physt.Theorems.C19
